@@ -108,6 +108,12 @@ func genEndPlan(seed uint64, thorough bool) *Plan {
 		}
 		t := []Item{cmdItem("CLIENT", "ID"), {Op: "barrier", N: 1}, {Args: bs(bcmd("q", "0")...), Tag: "doomed"}}
 		a := []Item{{Op: "barrier", N: 1}, {Op: "await-blocked", N: 0}}
+		if how == "kill" && g.chance(2) {
+			// the kill may land anywhere in the life of the command: before it is
+			// dispatched, between its first look at the list and its registration,
+			// before it has captured the connection, or while it waits
+			a = []Item{{Op: "barrier", N: 1}}
+		}
 		switch how {
 		case "kill":
 			a = append(a, cmdItem("CLIENT", "KILL", "ID", "$id:0"))
